@@ -196,14 +196,18 @@ def run_shard(spec, res):
 
 
 def postcheck(counters, maxima, sets):
+    """one digest per shard part and hash seed; shards of the same part that evaluated the same number of cases share a key,
+    so more than one digest under a key means the result depends on the interpreter's hash seed."""
     out = []
     by = {}
     for k, v in sets.items():
         if k.startswith('digest:'):
-            by.setdefault(k.split(':')[1], []).append((k, sorted(v)))
+            by.setdefault(k.split(':')[1], set()).update((k, d) for d in v)
     for part, items in by.items():
-        if len({k for k, _ in items}) == 1 and len({tuple(v) for _, v in items}) != 1:
-            out.append(dict(what=f'assignment digests of shard {part} differ between PYTHONHASHSEED values (ranks in separate interpreters would disagree)', mechanism=None, case=dict(part=part)))
+        digs = {d for _, d in items}
+        keys = {k for k, _ in items}
+        if len(keys) == 1 and len(digs) != 1:
+            out.append(dict(what=f'assignment digests of shard {part} differ between PYTHONHASHSEED values (ranks in separate interpreters would disagree) (digests {sorted(digs)})', mechanism=None, case=dict(part=part)))
     return out
 
 
